@@ -69,7 +69,7 @@ PAD_MODES = ('constant', 'periodic', 'symmetric', 'order0', 'order1', 'pywt_peri
              'reflect', 'antireflect', 'antisymmetric')
 COEFF_CAP = {'quick': 1500, 'thorough': 6000}
 GAUSS_N = {'even': (16, 32, 64, 128, 256), 'odd': (17, 33, 65, 129, 257)}
-GAUSS_N2 = {'even': (16, 32, 64), 'odd': (17, 33, 65)}
+GAUSS_N2 = {'even': (16, 32, 64), 'odd': (15, 31, 63)}    # <= 4096 points: single-threaded FFTW
 GAUSS_C = (1.0, -0.5)
 
 # tolerances (relative to the largest reference entry, never tuned per case)
@@ -130,6 +130,7 @@ class Acc(object):
         self.first = {}
         self.evals = 0
         self.skipped = 0
+        self.exposed = 0
         self.tags = set()
 
     def add(self, site, symptom, detail):
@@ -141,6 +142,7 @@ class Acc(object):
 
     def result(self, sig, sample=None):
         out = {'evals': self.evals, 'viol': self.viol(), 'skipped': self.skipped,
+               'exposed': self.exposed,
                'sig': '%s:%s' % (sig, '+'.join(sorted(self.tags)) or 'ok'),
                'trivial': self.evals == 0}
         if sample is not None:
@@ -156,6 +158,28 @@ class Op(object):
         self.site = site
         self.note = note
         self.ncalls = 0
+
+
+# Promote "a plan flagged FFTW_DESTROY_INPUT is executed on the caller's input array" from an
+# unspecified (counted) case to a violation.  Off: the docstrings say the flag is on by default.
+JUDGE_DESTROY_INPUT_EXPOSURE = False
+
+
+def _exposed_to_destroy_input(op, x):
+    """True if op's FFTW plan was last executed directly on x's memory, is flagged
+    FFTW_DESTROY_INPUT and is not a multi-dimensional c2r transform (which FFTW documents to
+    destroy its input always, i.e. deterministically)."""
+    plan = getattr(op, '_fftw_plan', None)
+    if plan is None:
+        return False
+    try:
+        flagged = 'FFTW_DESTROY_INPUT' in plan.flags
+        shared = np.shares_memory(plan.input_array, x.asarray())
+        c2r_multi = (np.dtype(plan.input_dtype).kind == 'c'
+                     and np.dtype(plan.output_dtype).kind == 'f' and len(plan.axes) > 1)
+    except Exception:
+        return False
+    return bool(flagged and shared and not c2r_multi)
 
 
 def _exc(e):
@@ -193,10 +217,23 @@ def _call(acc, o, x_arr, ref, tol, symptom, ctx, mode='oop', kw=None):
     acc.evals += 1
     if not same:
         acc.add(o.site, 'returned_object_is_not_out', what)
-    if not np.array_equal(x.asarray(), x0):
+    modified = not np.array_equal(x.asarray(), x0)
+    if _exposed_to_destroy_input(op, x):
+        # The plan just executed directly on the caller's array carries FFTW_DESTROY_INPUT, and
+        # the transform is not one that FFTW always destroys: whether the input survives is then
+        # at the discretion of the algorithm the FFTW_MEASURE planner picked by *timing*, i.e.
+        # not a function of the configuration.  The effect is therefore not judged; the
+        # deterministic cause is counted (and judged only if the switch below is set).
+        # Docstring of _call_pyfftw: "'FFTW_DESTROY_INPUT' is enabled by default" -> unspecified.
+        acc.skipped += 1
+        acc.exposed += 1
+        if JUDGE_DESTROY_INPUT_EXPOSURE:
+            acc.add(o.site, 'caller_input_exposed_to_FFTW_DESTROY_INPUT', what)
+    elif modified:
         # (what FFTW leaves in a destroyed input is unspecified, so it is not printed)
         acc.add(o.site, 'input_modified',
                 '%s: the input element %s holds other values after the call' % (what, _fmt(x0)))
+    if modified:
         x = op.domain.element(np.array(x_arr, copy=True))
     if not _differs(got, ref, tol):
         return got
@@ -766,12 +803,16 @@ def _cfg_ft(tier):
                                          'sign': sign, 'impl': impl, 'tmp': tmp})
     if thorough:
         for shape in _shapes((1, 2), SIZES):
-            emit(shape, DTYPES, ('none', 'create', 'ctor'))
-        for shape in _shapes((3,), SIZES):
-            if not _core3(shape):
-                continue
-            full = max(shape) <= 3 or shape in MIXED3_T
-            emit(shape, DTYPES if full else DBL, ('none', 'create') if full else ('none',))
+            ctor = len(shape) == 1 or shape in ([2, 3], [4, 5], [5, 3], [4, 4])
+            emit(shape, DTYPES, ('none', 'create', 'ctor') if ctor else ('none', 'create'))
+        # 3-d (the per-axis factors are separable, see _core3): {2,3}^3, two shapes of {4,5}^3
+        # showing both parities in every axis position, four mixed shapes; double precision
+        for shape in _shapes((3,), (2, 3)):
+            emit(shape, DBL, ('none', 'create'))
+        for shape in ([4, 5, 4], [5, 4, 5]):
+            emit(shape, DBL, ('none',))
+        for shape in MIXED3_T:
+            emit(shape, DBL, ('none', 'create') if shape in MIXED3 else ('none',))
     else:
         for shape in _shapes((1,), SIZES):
             emit(shape, DTYPES, ('none', 'create'))
@@ -877,7 +918,9 @@ def summarize(results):
         d = by_kind.setdefault(cfg['kind'], {'states': 0, 'evals': 0})
         d['states'] += 1
         d['evals'] += res['evals']
-    return {'per_kind': by_kind}
+    return {'per_kind': by_kind,
+            'calls_executing_a_DESTROY_INPUT_plan_on_the_callers_array(counted in skipped)':
+                sum(res.get('exposed', 0) for _, res in results)}
 
 
 def meta(tier):
@@ -902,8 +945,8 @@ def meta(tier):
                      'out-of-place, out=, .inverse, init_fftw_plan',
             'hist': 'pyfftw, all histories of length 3 over {%s}' % (HIST_ACTIONS if thorough
                                                                      else 'son'),
-            'ft': 'same sizes (3-d: ' + ('{2,3}^3, {4,5}^3 (double precision, no temporaries) and 4 '
-                                          'mixed shapes' if thorough else '2 shapes')
+            'ft': 'same sizes (3-d: ' + ('{2,3}^3, [4,5,4], [5,4,5] and 4 mixed shapes, double '
+                                          'precision' if thorough else '2 shapes')
                   + ') x per-axis shift x '
                   'temporaries ' + ("{none, create_temporaries, ctor tmp_r/tmp_f}" if thorough
                                     else '{none, create_temporaries}'),
@@ -927,7 +970,11 @@ def meta(tier):
             'divisible by 2**nlevels (docstring: no extra boundary coefficients exactly then)',
             '"dmey" is documented as an FIR approximation: exact reconstruction / orthogonality '
             'counted as unspecified; odl must reproduce the back-end round trip bit for bit',
-            'Gaussian convergence: finite horizon n <= 257 (1-d), <= 65 (2-d), max-norm error on '
+            'input preservation on the pyfftw DFT path is judged by effect only where the effect is '
+            'deterministic (no FFTW_DESTROY_INPUT plan on the caller array, or multi-dimensional '
+            'c2r which always destroys); otherwise it depends on the algorithm FFTW_MEASURE picks '
+            'by timing and the docstring says the flag is on by default: counted as unspecified',
+            'Gaussian convergence: finite horizon n <= 257 (1-d), <= 64 (2-d), max-norm error on '
             'the reciprocal grid',
         ],
     }
